@@ -209,6 +209,8 @@ type Exec struct {
 	Axioms     []*Term
 	AxiomNames []string
 	resultMode bool
+	// usesHeapRefs: a reference into the read-only linked heap (heapobj) was created for the function under verification
+	usesHeapRefs bool
 	bigRefSyms []*Term // *big.Int references returned by callees so far (results of contracts)
 	pendingCallee     *ssa.Function // the callee whose contract is being applied (nil: interface method)
 	pendingParamTypes []types.Type // parameter types of the callee whose contract is being applied (set by callFn)
@@ -468,6 +470,13 @@ func (ex *Exec) symVal(st *State, name string, t types.Type, depth int) Val {
 		}
 		return sv
 	case *types.Pointer:
+		if ex.heapObjOf(u.Elem()) != nil {
+			// a reference into the read-only linked heap (heapobj): any object, or nil (0)
+			r := ex.declInput(name+"!href", IntSort)
+			ex.usesHeapRefs = true
+			ex.Assumes = append(ex.Assumes, IGe(r, IntC(0)))
+			return PtrV{K: POpaque, Ref: r, Elem: u.Elem()}
+		}
 		// pointer to a modelled cell holding a symbolic value; assumed non-nil and unaliased
 		c := ex.newCell(name)
 		st.Cells[c] = ex.symVal(st, name+"!deref", u.Elem(), depth+1)
@@ -647,9 +656,48 @@ func (ex *Exec) load(st *State, p Val, site string) Val {
 	case PBig:
 		ex.reject("direct load of big.Int struct")
 	case POpaque:
+		if ho := ex.heapObjOf(pv.Elem); ho != nil && len(pv.Path) == 1 {
+			// a field of an object of the read-only linked heap: the declared function of the object's reference
+			f := pv.Elem.Underlying().(*types.Struct).Field(pv.Path[0])
+			uf := ex.P.CS.UFuns[ho[f.Name()]]
+			if uf == nil || len(uf.Args) != 1 || uf.Args[0] != "Int" || uf.Res != "Int" {
+				ex.reject("heapobj %s: field %s needs a declared `ufun f(Int) Int`", pv.Elem, f.Name())
+			}
+			ex.useUFun(uf)
+			t := App(uf.Name, IntSort, pv.Ref)
+			if pt, isPtr := f.Type().Underlying().(*types.Pointer); isPtr && !isBigIntPtr(f.Type()) {
+				return PtrV{K: POpaque, Ref: t, Elem: pt.Elem()}
+			}
+			if _, isTP := f.Type().(*types.TypeParam); isTP {
+				return OpaqueV{Typ: f.Type(), Id: t}
+			}
+			if ex.Mode == ModeInt {
+				if _, _, isInt := intInfo(f.Type()); isInt {
+					st.assume(ex.rangeFact(t, f.Type()))
+					return Scalar{t}
+				}
+			}
+			ex.reject("heapobj %s: field %s of type %s is not modelled", pv.Elem, f.Name(), f.Type())
+		}
 		ex.reject("load through unmodelled pointer")
 	}
 	return nil
+}
+
+// heapObjOf: the `heapobj` declaration of struct type t (a named type or an instance of a generic one), or nil.
+func (ex *Exec) heapObjOf(t types.Type) map[string]string {
+	if t == nil || len(ex.P.CS.HeapObjs) == 0 {
+		return nil
+	}
+	n, ok := types.Unalias(t).(*types.Named)
+	if !ok {
+		return nil
+	}
+	o := n.Origin().Obj()
+	if o.Pkg() == nil {
+		return nil
+	}
+	return ex.P.CS.HeapObjs[o.Pkg().Path()+"."+o.Name()]
 }
 
 func (ex *Exec) elemVal(elem types.Type, t *Term) Val {
@@ -1192,6 +1240,14 @@ func (ex *Exec) step(st *State, fr *Frame, ins ssa.Instruction) bool {
 		case PNil:
 			ex.safety(st, "nil-deref", ex.siteName(fr, ins, "nil"), False)
 			return true
+		case POpaque:
+			if ex.heapObjOf(p.Elem) == nil || len(p.Path) != 0 {
+				ex.reject("FieldAddr on unmodelled pointer %s", valString(p))
+			}
+			ex.safety(st, "nil-deref", ex.siteName(fr, ins, "nil"), Not(Eq(p.Ref, IntC(0))))
+			np := p
+			np.Path = []int{x.Field}
+			fr.Vals[x] = np
 		default:
 			ex.reject("FieldAddr on unmodelled pointer %s", valString(p))
 		}
